@@ -29,4 +29,9 @@ Proof. repeat split; vm_compute; reflexivity. Qed.
    decimal reader whose agreement with float() is checked on every run (the constants were once mistyped by hand: found by a boundary case) *)
 Example tolerances_are_the_decimals : parse_float_text [49; 101; 45; 57]%N = PFloat Float.rel_tol /\ parse_float_text [49; 101; 45; 49; 54]%N = PFloat Float.abs_tol.
 Proof. split; vm_compute; reflexivity. Qed.
+(* likewise the module constants pi and e of Builtins.v: the doubles that CPython prints as 3.141592653589793 and 2.718281828459045 *)
+Example module_constants_are_the_decimals :
+  parse_float_text [51; 46; 49; 52; 49; 53; 57; 50; 54; 53; 51; 53; 56; 57; 55; 57; 51]%N = PFloat (S754_finite false 7074237752028440 (-51))
+  /\ parse_float_text [50; 46; 55; 49; 56; 50; 56; 49; 56; 50; 56; 52; 53; 57; 48; 52; 53]%N = PFloat (S754_finite false 6121026514868073 (-51)).
+Proof. split; vm_compute; reflexivity. Qed.
 Print Assumptions read_what_was_printed. Print Assumptions real_of_string. Print Assumptions string_of_real. Print Assumptions real_of_bad_string.
